@@ -9,6 +9,8 @@ from . import runner
 HARNESS = {
     "C01": "c01_c02",
     "C02": "c01_c02",
+    "C03": "c03",
+    "C05": "c05",
 }
 
 
